@@ -435,6 +435,6 @@ fn run_global(line: &str) -> String {
 }
 
 fn gen_global(rng: &mut Rng, _tier: Tier, _n: usize) -> Vec<String> {
-    // one case per run (= one process): which slot is initialised first alternates with the seed
-    vec![format!("(global {} {})", if rng.bool() { "shared-first" } else { "internal-first" }, 2 + rng.usize(7))]
+    // both orders; the check runs every case of this stream in its own process (`per_case_process`)
+    vec![format!("(global shared-first {})", 2 + rng.usize(7)), format!("(global internal-first {})", 2 + rng.usize(7))]
 }
